@@ -3855,7 +3855,25 @@ def _fix_duplicate_regular_imports(source: str) -> str:
     replacements = {}
     removals = set()
 
-    for (_, asname), nodes in import_nodes.items():
+    def is_rebound_between(name: str, asname: str, first: ast.Import, second: ast.Import) -> bool:
+        """Determine if anything else may bind asname between two imports of it."""
+        bound_name = asname.split(".")[0]
+        for other in core.walk(root, (ast.Import, ast.ImportFrom)):
+            if first.lineno < other.lineno < second.lineno:
+                for alias in other.names:
+                    if alias.name == "*":
+                        return True
+                    if (alias.asname or alias.name.split(".")[0]) == bound_name and (
+                        isinstance(other, ast.ImportFrom) or alias.name != name
+                    ):
+                        return True
+
+        return any(
+            first.lineno < other.lineno < second.lineno
+            for other in core.walk(root, ast.Name(id=bound_name, ctx=ast.Store))
+        )
+
+    for (name, asname), nodes in import_nodes.items():
         if len(nodes) > 1:
             kept = []
             for node in nodes:
@@ -3863,6 +3881,7 @@ def _fix_duplicate_regular_imports(source: str) -> str:
                     continue  # The same name twice in one statement
                 if not any(
                     containers.get(other) in (containers.get(node), (root, "body"))
+                    and not is_rebound_between(name, asname, other, node)
                     for other in kept
                 ):
                     kept.append(node)
